@@ -45,6 +45,7 @@ def _case(draw):
                 init[str(i)] = stt
     sched = draw(sc.schedules(max_len=100))
     case = {'n': n, 'edges': edges, 'outcomes': outs, 'workers': workers, 'sched': sched}
+    case.update(draw(sc.extras(n)))
     if back:
         case['back'] = back
     if init:
@@ -132,6 +133,7 @@ def judge(case, rec, replay_case=None):
 
 def run_case(case):
     out = Outcome()
+    out.labels.extend(sc.shape_labels(case))
     cyc = sc.is_cyclic(case)
     if cyc:
         out.labels.append('cyclic')
